@@ -369,8 +369,10 @@ pub fn gen_spec(rng: &mut Rng) -> (KyteaSpec, Vec<Vec<char>>) {
         let n = rng.urange(1, 30);
         texts.push(text::text_from(rng, &alpha, n));
     }
-    let char_w = rng.urange(1, 4) as u8;
-    let type_w = rng.urange(1, 4) as u8;
+    // windows: usually 1..4; sometimes beyond the 7-slot score padding of the predictor
+    let wide = rng.chance(1, 10);
+    let char_w = if wide && rng.chance(1, 2) { rng.urange(8, 12) } else { rng.urange(1, 4) } as u8;
+    let type_w = if wide && rng.chance(1, 2) { rng.urange(8, 12) } else { rng.urange(1, 4) } as u8;
     let dict_n = rng.urange(1, 5) as u8;
     let n_dicts = rng.urange(0, 8) as u8;
     let n_tags = rng.below(4) as u32;
@@ -466,7 +468,11 @@ pub fn gen_spec(rng: &mut Rng) -> (KyteaSpec, Vec<Vec<char>>) {
             words.push((w, mask));
         }
     }
-    let dict_vec: Vec<i16> = (0..3 * usize::from(dict_n) * usize::from(n_dicts)).map(|_| rng.range(-3000, 3000) as i16).collect();
+    // membership weights: usually moderate; sometimes so large that the sum over several dictionaries leaves the 16-bit range
+    let heavy = rng.chance(1, 6);
+    let dict_vec: Vec<i16> = (0..3 * usize::from(dict_n) * usize::from(n_dicts))
+        .map(|_| if heavy { *rng.pick(&[20000i16, -20000, 32767, -32768, 15000, -9000]) } else { rng.range(-3000, 3000) as i16 })
+        .collect();
     let spec = KyteaSpec {
         char_w,
         type_w,
